@@ -10,6 +10,7 @@ import (
 
 	"verifsim/internal/comp"
 	"verifsim/internal/env"
+	"verifsim/internal/filegen"
 	"verifsim/internal/gen"
 	"verifsim/internal/model"
 	"verifsim/internal/ref"
@@ -535,6 +536,24 @@ func CosimWorker(pm *Params) (*Stats, []*Failure) {
 	for i := pm.From; i < pm.Count; i += pm.Stride {
 		runSeed := rng.RunSeed(pm.VerifSeed, prop, i)
 		gr := rng.New(rng.Sub(runSeed, "gen"))
+		if prop == "C05" && i%4 == 3 {
+			// every fourth C05 run: a full-feature file (poryswitch, const, format, raw, ...)
+			cc.digest = &Digest{}
+			fl := c05FullRun(pm, i, runSeed, gr, cc, st)
+			st.Runs++
+			st.Programs++
+			total.Add(cc.digest.Hex())
+			if pm.PerRun {
+				st.PerRun = append(st.PerRun, fmt.Sprintf("%d %s", i, cc.digest.Hex()))
+			}
+			if fl != nil {
+				fails = append(fails, fl)
+				if len(fails) >= pm.MaxFail {
+					break
+				}
+			}
+			continue
+		}
 		cfg := gen.DrawConfig(gr, gen.Profile(prop), pm.Thorough)
 		f := gen.File(gr, cfg)
 		or := rng.New(rng.Sub(runSeed, "options"))
@@ -697,6 +716,16 @@ func cosimReport(pm *Params, run, runSeed uint64, p *cosimProgram, plan *envPlan
 // CosimReplay re-executes a replay file against the current compiler. It returns the
 // failure it reproduces ("" oracle = not reproduced).
 func CosimReplay(r *Replay) (string, string) {
+	if r.Model == nil && r.FullFiles != nil && r.Options != nil && r.Options2 != nil {
+		var envs []env.Env
+		if r.Env != nil {
+			envs = []env.Env{*r.Env}
+		} else {
+			envs = []env.Env{{Seed: 1, Bias: 0.5, Dom: 4}}
+		}
+		or, detail, _, _, _, _, _ := c05FullEval(r.Source, r.Options, r.Options2, r.FullFiles, envs, nil, nil)
+		return or, detail
+	}
 	if r.Model == nil {
 		return "", "replay has no model"
 	}
@@ -721,4 +750,126 @@ func DebugGen(prop string, seed, run uint64) string {
 	cfg := gen.DrawConfig(gr, gen.Profile(prop), false)
 	f := gen.File(gr, cfg)
 	return model.Layout(f.Tokens(), 0, nil)
+}
+
+// c05FullRun: lock-step of the optimize=false / optimize=true images of a full-feature
+// file from every user-visible code label, under the same seeded game states.
+func c05FullRun(pm *Params, run, runSeed uint64, gr *rng.R, cc *cosimCounters, st *Stats) *Failure {
+	cfg := filegen.DrawConfig(gr)
+	f := filegen.Gen(gr, cfg)
+	lr := rng.New(rng.Sub(runSeed, "layout"))
+	src := filegen.Join(f.Tokens(nil), 1+int(runSeed%2), lr.U64)
+	oa := fgOptions(f)
+	or := rng.New(rng.Sub(runSeed, "options"))
+	oa.LineMarkers = or.Bool()
+	if oa.LineMarkers {
+		oa.Path = "prog.pory"
+	}
+	ob := oa
+	ob.Optimize = true
+	files := map[string]string{"font_config.json": string(f.Fonts.JSON())}
+	var envs []env.Env
+	for k := 0; k < 4; k++ {
+		envs = append(envs, env.Env{Seed: rng.H(runSeed, 0xe17, uint64(k)), Bias: []float64{0.2, 0.5, 0.8}[or.Intn(3)], Dom: 4})
+	}
+	ff, detail, entry, e, ta, tb, out := c05FullEval(src, &oa, &ob, files, envs, cc, f)
+	if ff == "" {
+		return nil
+	}
+	r := &Replay{Version: 1, Engine: "cosim", Property: "C05", Oracle: ff, VerifSeed: pm.VerifSeed, Run: run, RunSeed: runSeed, Detail: detail,
+		Source: src, Options: &oa, Options2: &ob, Entry: entry, Expected: ta, Actual: tb, Output: out, FullFiles: files}
+	if entry != "" {
+		r.Env = &e
+	}
+	fl := &Failure{Property: "C05", Oracle: ff, Detail: detail, Replay: r}
+	if id := pm.Known.Attribute(r); id != "" {
+		st.KnownSeen[id]++
+		return nil
+	}
+	path, err := WriteReplay(pm.ReplayDir, r)
+	if err != nil {
+		fl.Detail += " (could not write replay: " + err.Error() + ")"
+	}
+	fl.Path = path
+	return fl
+}
+
+func c05FullEval(src string, oa, ob *comp.Options, files map[string]string, envs []env.Env, cc *cosimCounters, f *filegen.File) (string, string, string, env.Env, *trace.Trace, *trace.Trace, string) {
+	d := &Disk{Files: map[string][]byte{}}
+	for k, v := range files {
+		d.Files[k] = []byte(v)
+	}
+	Mount(d)
+	ra := comp.Compile(src, oa, cosimCompLim, nil)
+	rb := comp.Compile(src, ob, cosimCompLim, nil)
+	Mount(nil)
+	var none env.Env
+	if cc != nil {
+		cc.ticks += ra.Ticks + rb.Ticks
+		cc.digest.Add(ra.Key())
+		cc.digest.Add(rb.Key())
+	}
+	if ra.HasOut != rb.HasOut {
+		return "accept-differs", fmt.Sprintf("optimize=false: %.200q optimize=true: %.200q", ra.Key(), rb.Key()), "", none, nil, nil, ""
+	}
+	if !ra.HasOut {
+		if cc != nil {
+			cc.rejected = "rejected full-feature file"
+		}
+		return "", "", "", none, nil, nil, ""
+	}
+	ia, ib := vm.Load(ra.Out), vm.Load(rb.Out)
+	all := map[string]bool{}
+	for _, l := range ia.Order {
+		all[l] = true
+	}
+	skip := map[string]bool{}
+	tops := map[string]bool{}
+	if f != nil {
+		for _, it := range f.Items {
+			tops[it.Name] = true
+			if it.Kind != "script" {
+				skip[it.Name] = true
+			}
+		}
+	}
+	ua, ub := userLabels(ia, all), userLabels(ib, all)
+	if ua != ub {
+		return "labels-differ", fmt.Sprintf("user-visible labels differ: optimize=false %.300s ; optimize=true %.300s", ua, ub), "", none, nil, nil, rb.Out
+	}
+	if ha, hb := hoisted(ia), hoisted(ib); ha != hb {
+		return "hoisted-differ", "hoisted data differ between optimize=false and optimize=true", "", none, nil, nil, rb.Out
+	}
+	for _, l := range ia.Order {
+		if skip[l] || isGenerated(l, all) || reHoisted.MatchString(l) || len(ib.Labels[l]) != 1 || len(ia.Labels[l]) != 1 {
+			continue
+		}
+		idx := ia.Labels[l][0]
+		if idx >= len(ia.Instrs) || ia.Instrs[idx].Data {
+			continue
+		}
+		for _, e := range envs {
+			ta := vm.Run(ia, l, &e, tops, vmLim, nil)
+			tb := vm.Run(ib, l, &e, tops, vmLim, nil)
+			if cc != nil {
+				cc.evals++
+				cc.steps += int64(ta.Steps + tb.Steps)
+				cc.digest.Add(ta.String())
+				cc.digest.Add(tb.String())
+				if ta.Decisions >= 1 && len(ta.Events) >= 1 {
+					cc.distinct = append(cc.distinct, rng.H(rng.HashStr(src), rng.HashStr(l), ta.Path))
+				}
+			}
+			fa, fb := strings.HasPrefix(ta.Finish, "fault:"), strings.HasPrefix(tb.Finish, "fault:")
+			if fa && fb {
+				// raw blocks and references to unknown labels can legitimately run off; both
+				// images must still have performed the same commands first
+				ta.Finish, tb.Finish = "fault", "fault"
+			}
+			if dd := trace.Diff(ta, tb); dd != "" {
+				return "lockstep", "optimize=true vs optimize=false from label " + l + ": " + dd, l, e, ta, tb, rb.Out
+			}
+		}
+	}
+	return "", "", "", none, nil, nil, ""
 }
